@@ -63,7 +63,7 @@ def executed(build):
 
 def run_case(case):
     rng = random.Random(case["seed"])
-    counters = dict.fromkeys(["evaluations", "skipped_unsuccessful"] + REQUIRED_COUNTERS, 0)
+    counters = dict.fromkeys(["evaluations", "skipped_unsuccessful", "history_builds"] + REQUIRED_COUNTERS, 0)
     violations = []
     nontrivial = []
 
@@ -183,7 +183,27 @@ def run_case(case):
             b = H.run_build(cfg, env=env)
             counters["resumed_builds"] += 1
             check_build(f"{case['id']}/{sub} resumed-unrestricted", b, cfg, witness, fresh=False)
+            # 3b. an edit history on the same database: plan edits (dropped, re-added, redefined
+            # steps, toggled needs) with source changes; what runs must still be what is needed
+            cur = json.loads(json.dumps(spec))
+            # the source edit above is on disk only: take it over so that render() keeps it
+            cur["sources"][src[0]] = open(src[0]).read()
+            files = gen.user_files(cur)
+            memory = {}
+            for k in range(rng.randint(1, 3)):
+                edits = []
+                for kind_ in rng.sample(["drop_step", "toggle_need", "change_source", "readd_step",
+                                         "drop_define", "redefine_step", "change_source"], 3):
+                    desc = gen.apply_edit(rng, cur, kind_, memory)
+                    if desc is not None:
+                        edits.append([kind_, desc])
+                files = gen.render(cur, previous=files)
+                hw = {"case": case["id"], "spec": spec, "edits": edits, "final": cur}
+                b = H.run_build(cfg, env=dict(cur.get("env", {})))
+                counters["history_builds"] += 1
+                check_build(f"{case['id']}/{sub} after edits {edits}", b, cfg, hw, fresh=False)
             # 4. from scratch with targets
+            gen.render(spec, previous=files)
             shutil.rmtree(".stepup", ignore_errors=True)
             shutil.rmtree("out", ignore_errors=True)
             b = H.run_build(tcfg, env=env)
